@@ -1,3 +1,4 @@
+import Fpdec.Kernels.Cmp
 import Fpdec.Lemmas.Cmp
 import Fpdec.Props.C08_Sites
 
@@ -50,5 +51,18 @@ theorem value_order_eq_iff (a : Int) (p : Nat) (b : Int) (q : Nat) :
 
 /-! ### non-vacuity -/
 example : partialCmp ⟨1, 0⟩ ⟨10, 1⟩ = some .eq ∧ partialCmp Dec.MAX ⟨I128_MAX, 1⟩ = some .gt := by decide
+
+/-! ### translated kernels
+The Lean definitions `Gen.K.*` are regenerated from the Rust source on every run by `tools/fpkernels.py` (expression-level
+translation).  These theorems tie them to the hand-written model the property theorems above are about: a change of the Rust
+kernel that changes its translation breaks them. -/
+/-- `impl PartialEq<Decimal> for Decimal` / `impl PartialOrd<Decimal> for Decimal`, as translated on this run -/
+theorem kernel_decimal_eq (prof : Profile) (x y : Dec) (hp : x.nfrac < 256) (hq : y.nfrac < 256) :
+    Gen.K.decimal_eq prof x y = .ok (decimalEq x y) := Kernels.decimal_eq_eq prof x y hp hq
+theorem kernel_decimal_partial_cmp (prof : Profile) (x y : Dec) (hp : x.nfrac < 256) (hq : y.nfrac < 256) :
+    Gen.K.decimal_partial_cmp prof x y = .ok (partialCmp x y) := Kernels.decimal_partial_cmp_eq prof x y hp hq
+theorem kernel_checked_adjust_coeffs (prof : Profile) (x : Int) (p : Nat) (y : Int) (q : Nat) (hp : p < 256) (hq : q < 256) :
+    Gen.K.checked_adjust_coeffs prof x p y q = .ok (checkedAdjustCoeffs x p y q) :=
+  Kernels.checked_adjust_coeffs_eq prof x p y q hp hq
 
 end Fpdec.Props.C08
